@@ -34,10 +34,10 @@ static void c08_havoc_conversation (DBusAuth *auth, _Bool state_too)
  * FALSE => state, failure count, replies unchanged.  TRUE => AUTH_INV; at most one reply, none exactly for BEGIN;
  * failures + 1 exactly when REJECTED was sent; Authenticated only from WaitingForBegin on BEGIN with the granted identity
  * untouched; WaitingForBegin entered only with OK. */
-static dbus_bool_t c08_handler_contract (DBusAuth *auth, int command)
+static dbus_bool_t c08_handler_contract (DBusAuth *auth, int command, _Bool must_fail)
 {
   const DBusAuthStateData *old_state = ST (auth); int old_fail = SRV (auth)->failures; int old_ok = g_mech_ok; DBusCredentials old_authz = *auth->authorized_identity;
-  if (nondet_bool ())
+  if (must_fail || nondet_bool ())
     { c08_havoc_conversation (auth, 0); if (nondet_bool ()) auth->unix_fd_negotiated = TRUE; __CPROVER_assume (AUTH_INV (auth) && g_mech_ok == old_ok); return FALSE; }
   c08_havoc_conversation (auth, 1);
   if (nondet_bool ()) auth->unix_fd_negotiated = TRUE;
@@ -59,7 +59,7 @@ dbus_bool_t verif_stub_state_handler (DBusAuth *auth, DBusAuthCommand command, c
   PRE (STR_LIVE_OK (args), "state handler: argument string alive");
   G.handler_calls++; G.handler_cmd = command; G.handler_args = args;
   g_handler_args_is_temp = (args != &auth->incoming && args != &auth->outgoing && args != &auth->identity && args != &auth->context && args != &auth->challenge);
-  return c08_handler_contract (auth, command);
+  return c08_handler_contract (auth, command, 0);
 }
 
 /* CONTRACT process_command (proved in C08.process_command) */
@@ -69,14 +69,14 @@ dbus_bool_t verif_stub_process_command (DBusAuth *auth)
   G.process_command_calls++;
   int r = nondet_int ();
   if (r == 0 || SLEN (&auth->incoming) < 2) return FALSE;                         /* no complete line: nothing changes */
-  if (r == 1) { auth->needed_memory = TRUE; return c08_handler_contract (auth, nondet_int ()) && 0; }   /* out of memory */
+  if (r == 1) { auth->needed_memory = TRUE; c08_handler_contract (auth, nondet_int (), 1); return FALSE; }   /* out of memory */
   int k = nondet_int (); __CPROVER_assume (k >= 0 && k <= SLEN (&auth->incoming) - 2);
   if (nondet_bool ())
     { /* not ASCII */
       if (nondet_bool ()) { auth->needed_memory = TRUE; return FALSE; }
       c08_note_sent (SPEC_REPLY_ERROR);
     }
-  else if (!c08_handler_contract (auth, nondet_int ())) { auth->needed_memory = TRUE; return FALSE; }
+  else if (!c08_handler_contract (auth, nondet_int (), 0)) { auth->needed_memory = TRUE; return FALSE; }
   SM (&auth->incoming)->len -= k + 2; g_pc_consumed += k + 2; g_pc_lines++;
   g_pc_last_was_begin = (ST (auth) == S_AUTHD);
   auth->needed_memory = FALSE;
